@@ -148,29 +148,39 @@ theorem captured_noPanic {α : Type} (x : RM α) (hx : NoPanic x) : NoPanic (RM.
   | panic p => exact absurd hr (hx rc {} p)
   | fuel => simp
 
-theorem cleanup_noPanic (x : RM Unit) (c : RC → RC) (hx : NoPanic x) : NoPanic (RM.withCleanup x c) := by
+theorem bracket_noPanic {α : Type} (enter : RC → RC) (x : RM α) (leave : RC → RC → RC) (hx : NoPanic x) :
+    NoPanic (RM.bracket enter x leave) := by
   intro rc out s
-  unfold RM.withCleanup
-  cases hr : x rc out with
+  unfold RM.bracket
+  cases hr : x (enter rc) out with
   | ok a rc1 o1 => simp
   | err e o => simp
-  | panic p => exact absurd hr (hx rc out p)
+  | panic p => exact absurd hr (hx (enter rc) out p)
   | fuel => simp
+
+theorem modify_noPanic (f : RC → RC) : NoPanic (RM.modify f) := fun rc out s => by simp
 
 /-- "does not panic" as a closed predicate; the only leaf that mentions `panic` is `navigate`,
     where both sites are unreachable (navigate_never_panics) -/
 def noPanicPred : RMPred where
   P := fun x => NoPanic x
+  Q := fun x => NoPanic x
+  sub := fun _ h => h
   ret := fun a rc out s => by simp
   bnd := bnd_noPanic
+  qbnd := bnd_noPanic
   get := fun rc out s => by simp
-  modify := fun f rc out s => by simp
+  modifyAux := fun f => modify_noPanic _
+  frontMod := fun f => modify_noPanic _
   throw := fun e rc out s => by simp
   outOfFuel := fun rc out s => by simp
   write := write_noPanic
   mapErr := fun x f _ hx => mapErr_noPanic x f hx
   captured := captured_noPanic
-  cleanup := cleanup_noPanic
+  withBlock := fun b x hx => bracket_noPanic _ x _ hx
+  escOffReset := fun x hx => bracket_noPanic _ x _ hx
+  escOffSaved := fun x hx => bracket_noPanic _ x _ hx
+  partialScope := fun _ _ _ _ x hx => bracket_noPanic _ x _ hx
   navigate := fun root segs blocks rc out s => navigate_never_panics root segs blocks rc out s
 
 /-- rendering ANY template AST on ANY data in ANY state with ANY registry of the modelled helpers and
